@@ -20,7 +20,8 @@ from edgegraph.structure.universe import UniverseLaws
 
 
 class VSub(Vertex):
-    pass
+    #: a class-level default: instances *have* the attribute although it is not in their __dict__
+    kind = "sub"
 
 
 class VSubSub(VSub):
@@ -59,11 +60,24 @@ class VPlain(Vertex):
 
 
 class VFancy(Vertex):
-    pass
+    @property
+    def parity(self):
+        """An attribute that exists only through the class (like uid)."""
+        return getattr(self, "idx", 0) % 2
 
 
 class VBoth(VPlain, VFancy):
     """Multiple inheritance: MRO is VBoth, VPlain, VFancy, Vertex."""
+
+
+class VSlots(Vertex):
+    """A subclass that declares slots next to the inherited __dict__ (its pickled state is a (dict, slots) pair)."""
+
+    __slots__ = ("slot_a", "slot_b")
+
+    def __init__(self, **kw):
+        super().__init__(**kw)
+        self.slot_a = ["sa", getattr(self, "idx", None)]
 
 
 class Marker:
@@ -141,7 +155,7 @@ class MultiLink(Link):
 
 VERTEX_CLASSES = {
     c.__name__: c
-    for c in (Vertex, VSub, VSubSub, FalsyVertex, EmptyVertex, Universe, VPlain, VFancy, VBoth, EqVertex, StrVertex)
+    for c in (Vertex, VSub, VSubSub, FalsyVertex, EmptyVertex, Universe, VPlain, VFancy, VBoth, EqVertex, StrVertex, VSlots)
 }
 EDGE_CLASSES = {
     c.__name__: c
